@@ -53,7 +53,8 @@ MkCb(t, k, n, i) == [t |-> t, k |-> k, n |-> n, i |-> i, s |-> ""]
 EvObj(rec) ==
     LET p == Pts[rec.p]
     IN [g |-> p.eg, v |-> p.ev, ix |-> p.ix, ty |-> p.ty, ev |-> TRUE, val |-> rec.val,
-        fl |-> 1, tm |-> rec.tm, tq |-> "", st |-> -1]
+        fl |-> IF p.ty = "os" THEN -1 ELSE 1, tm |-> IF p.ty = "os" THEN "" ELSE rec.tm,
+        tq |-> "", st |-> -1]
 StObj(pn, val) ==
     LET p == Pts[pn]
     IN [g |-> p.sg, v |-> p.sv, ix |-> p.ix, ty |-> p.ty, ev |-> FALSE, val |-> val,
@@ -61,6 +62,9 @@ StObj(pn, val) ==
 
 -----------------------------------------------------------------------------
 (* initial state *)
+
+\* value every point is initialised with before the scenario starts
+InitVal(p) == IF Pts[p].ty = "os" THEN "os" \o ToString(Pts[p].ssz) \o ":0" ELSE "0"
 
 NoResp == [has |-> FALSE, uns |-> FALSE, seq |-> 0, fir |-> TRUE, fin |-> TRUE, con |-> FALSE,
            iin |-> NoIin, body |-> <<>>]
@@ -103,8 +107,8 @@ Init0 ==
      totalT    |-> [i \in 1..8 |-> 0],
      ovf       |-> FALSE,
      nextId    |-> 0,
-     cur       |-> [p \in 1..NP |-> "0"],
-     frozen    |-> [p \in 1..NP |-> "0"],
+     cur       |-> [p \in 1..NP |-> InitVal(p)],
+     frozen    |-> [p \in 1..NP |-> InitVal(p)],
      selq      |-> <<>>,        \* static selection queue: point numbers still to be written
      changed   |-> FALSE,       \* Notify permit
      \* master side bookkeeping needed to concretise inputs
